@@ -309,10 +309,19 @@ class Interp:
         try:
             if isinstance(node, ast.Lambda):
                 return self.eval(node.body, env)
-            if "generator" in f.marks or self._is_generator(node):
+            if "generator" in f.marks:
                 raise Unsupported(f"generator function {f.name}")
             env.loop_ord = 0
             env.func = f
+            if self._is_generator(node):
+                # a generator function whose values are only iterated over (no send / throw, nothing observable interleaved with its
+                # consumer) is run to its end and stands for the list of what it yields; `x = yield v` (a value sent in) is not supported
+                env.yielded = []
+                try:
+                    self.exec_block(node.body, env)
+                except _Return:
+                    pass
+                return list(env.yielded)
             try:
                 self.exec_block(node.body, env)
             except _Return as r:
@@ -328,10 +337,14 @@ class Interp:
         k = id(node)
         if k not in self._gen_cache:
             res = False
-            for n in ast.walk(node):
+            todo = list(ast.iter_child_nodes(node))
+            while todo:  # (the yields of nested functions and lambdas are theirs)
+                n = todo.pop()
                 if isinstance(n, (ast.Yield, ast.YieldFrom)):
                     res = True
                     break
+                if not isinstance(n, (ast.FunctionDef, ast.AsyncFunctionDef, ast.Lambda, ast.ClassDef)):
+                    todo.extend(ast.iter_child_nodes(n))
             self._gen_cache[k] = res
         return self._gen_cache[k]
 
